@@ -22,6 +22,7 @@ type SpecEnv struct {
 	pkg   string // short package name used for unqualified names
 	depth int
 	qn    *int
+	loopSt *State // state at entry of the innermost loop being specified (for atloop(e))
 }
 
 func (se *SpecEnv) with(vars map[string]Value) *SpecEnv {
@@ -352,6 +353,11 @@ func (se *SpecEnv) evalBinary(x *EBinary) Value {
 		case a.Sort == "Nil" && b.Sort == "Nil":
 			r = "true"
 		default:
+			if a.Sort == "Val" && b.Sort != "Val" {
+				b = se.e.makeIface(b)
+			} else if b.Sort == "Val" && a.Sort != "Val" {
+				a = se.e.makeIface(a)
+			}
 			if a.Sort != b.Sort {
 				sfail("comparing sorts %s and %s (%s vs %s)", a.Sort, b.Sort, a.T, b.T)
 			}
@@ -448,6 +454,11 @@ func (se *SpecEnv) evalCall(x *ECall) Value {
 			sfail("old() not available here")
 		}
 		return se.inState(se.old).eval(x.Args[0])
+	case "atloop":
+		if se.loopSt == nil {
+			sfail("atloop() is only available in loop invariants")
+		}
+		return se.inState(se.loopSt).eval(x.Args[0])
 	case "len":
 		v := se.eval(x.Args[0])
 		switch v.Sort {
